@@ -222,7 +222,9 @@ def write_evidence(pid, tier, seed, mod, m, wall, violations):
         'rule': mod.RULE,
         'samples': pick_samples(m['samples']),
         'labels': dict(sorted(m['labels'].items())),
-        'exhaustive': False,
+        # only a module whose whole claimed domain is a finite space that
+        # every run enumerates completely sets EXHAUSTIVE (C06)
+        'exhaustive': bool(getattr(mod, 'EXHAUSTIVE', False)),
         'exhaustive_subdomains': sorted(set(m['exhaustive'])),
         'excluded_known': m['excluded_known'],
         'tasks': m['tasks'],
